@@ -1,4 +1,4 @@
-# Reproducer for a defect repaired in /repo (properties C01 / C10): see known_findings.txt.
+# Reproducer for a defect repaired in /repo (properties C10 / C01): see known_findings.txt.
 # Before: an anonymous-bundle member given as a port reference whose port is wired to a bundle member was refused with
 # "TypeError: Invalid AnonBundle attribute BundleRef(..)": the port reference had resolved to a bundle reference, which
 # the flattener looked up once and then did not resolve itself.
